@@ -16,7 +16,8 @@ Oracle (exact rational arithmetic on the implementation's replies; G = V^T V, b 
   * predict: |pred - sum c_k x^k| <= (2 len + 2) eps sum |c_k||x|^k  (Horner bound), exact when everything is a small integer
   * vandermonde: V[i, j] is x_i^j within j/2+1 ulp (square-and-multiply), exact for j <= 1 and for dyadic x
   * length mismatch or empty input panics; a well-conditioned fit does not panic.
-Cases with C eps cond(G) >= 1e-2 or fewer than deg+1 distinct abscissae are correspondence-only.
+Cases with C eps cond(G) >= 1e-2, fewer than deg+1 distinct abscissae, or responses that are all below 1e-250 in
+magnitude but not all zero (absolute underflow errors, outside the relative bounds) are correspondence-only.
 """
 import math
 from fractions import Fraction
@@ -274,6 +275,104 @@ def corpus():
     return L
 
 
+
+# ----------------------------------------------------------------------------- generic strata (GENERIC_STRATA.md)
+SPECIAL_X = [0.0, -0.0, 1.0, -1.0, 0.5, -0.5, 1.5, 2.0, -2.0, 1.0 / 3.0, 2.0 / 3.0, -1.0 / 3.0, 0.25, 1.0 + 2.0 ** -52,
+             1.0 - 2.0 ** -53, 2.0 - 2.0 ** -51]
+
+
+def strata_layout(rng, kind, n):
+    if kind == "zeros":       # many abscissae exactly 0 (and -0), the rest uniform
+        return [rng.choice([0.0, 0.0, -0.0]) if rng.chance(0.4) else rng.uniform(-2.0, 2.0) for _ in range(n)]
+    if kind == "near0":       # tightly clustered around 0
+        w = rng.choice([1e-3, 1e-3, 1e-4])
+        return [w * rng.uniform(-1.0, 1.0) for _ in range(n)]
+    if kind == "nonpos":      # max(x) = 0 exactly
+        xs = [-rng.uniform(0.0, 2.0) for _ in range(n)]
+        for _ in range(rng.randint(1, 2)):
+            xs[rng.randint(0, n - 1)] = rng.choice([0.0, -0.0])
+        return xs
+    if kind == "neg":         # max(x) < 0
+        return [-rng.uniform(0.05, 2.0) for _ in range(n)]
+    if kind == "special":
+        return [rng.choice(SPECIAL_X) if rng.chance(0.6) else rng.randint(-8, 8) / 4.0 for _ in range(n)]
+    raise ValueError(kind)
+
+
+def strata_fit_line(rng, tagp, d, x, ymode, cover, key):
+    c0 = [rng.normal() * 10.0 ** rng.randint(-1, 1) for _ in range(d + 1)]
+    sc = max(abs(a) for a in c0) or 1.0
+    y = [horner_f(c0, v) + rng.choice([1e-3, 0.1, 1.0]) * sc * rng.normal() for v in x]
+    if ymode == "zeros":      # some responses exactly 0.0 / -0.0 / subnormal
+        for i in range(len(y)):
+            if rng.chance(0.3):
+                y[i] = rng.choice([0.0, 0.0, -0.0, 5e-324, -1e-310])
+    elif ymode == "allzero":
+        y = [rng.choice([0.0, -0.0]) for _ in x]
+    elif ymode == "const":
+        y = [c0[0]] * len(x)
+    cover[key] = cover.get(key, 0) + 1
+    return "fit %s:d%d:%s %d %s %s" % (tagp, d, ymode, d, vec(x), vec(y))
+
+
+def gen_strata(rng, tier, cover):
+    q = tier == "quick"
+    m = 1 if q else 12
+    L = []
+    # abscissae exactly 0 with noisy responses; max(x) = 0; all negative; exact special abscissae
+    for kind, cnt in (("zeros", 40), ("nonpos", 30), ("neg", 15), ("special", 30)):
+        for _ in range(cnt * m):
+            d = rng.randint(0, 4)
+            n = d + 1 + rng.choice([0, 0, 1, 3, rng.randint(0, 30)])
+            x = strata_layout(rng, kind, n)
+            L.append(strata_fit_line(rng, kind, d, x, rng.choice(["noisy", "noisy", "zeros"]), cover, "strata:" + kind))
+    # tight cluster around 0 (low degrees only: the normal matrix is ~singular beyond)
+    for _ in range(40 * m):
+        d = rng.choice([0, 0, 1, 1, 1, 2])
+        n = d + 1 + rng.choice([0, 1, 2, 5, rng.randint(0, 40)])
+        L.append(strata_fit_line(rng, "near0", d, strata_layout(rng, "near0", n), "noisy", cover, "strata:near0"))
+    # responses exactly zero / subnormal / constant on ordinary layouts
+    for _ in range(50 * m):
+        d = rng.randint(0, 5)
+        kind = rng.choice(["uniform", "cheb", "grid", "int"])
+        if kind == "int":
+            d = min(d, 4)
+        n = d + 1 + rng.choice([0, 2, 6, rng.randint(0, 40)])
+        L.append(strata_fit_line(rng, kind, d, layout(rng, kind, max(n, 5 if kind == "int" else n) if kind != "int" else max(n, 12)),
+                                 rng.choice(["zeros", "zeros", "allzero", "const"]), cover, "strata:yzero"))
+    # size boundaries: n = degree + 1 exactly, 2^k and neighbours, multiples of 8, and (d+1)^2 n crossing 32768
+    for d in range(0, 7):
+        for _ in range(3 * m):
+            kind = rng.choice(["uniform", "cheb"])
+            L.append(strata_fit_line(rng, kind + ":nmin", d, layout(rng, kind, d + 1), "noisy", cover, "strata:nmin"))
+    for n in [7, 8, 9, 15, 16, 17, 31, 32, 33, 63, 64, 65, 127, 128, 129, 255, 256, 257] * m:
+        d = rng.randint(0, min(6, n - 1))
+        L.append(strata_fit_line(rng, "uniform:bnd", d, layout(rng, "uniform", n), "noisy", cover, "strata:sizes"))
+    big = [(6, 668), (6, 669), (6, 670), (6, 1024), (6, 2000), (5, 910), (5, 911), (5, 1025), (4, 1310), (4, 1311), (3, 2000),
+           (2, 511), (2, 512), (2, 513), (1, 1023), (1, 1024), (1, 1025), (0, 2000)]
+    for d, n in (big if q else big * 4):
+        kind = rng.choice(["uniform", "cheb"])
+        L.append(strata_fit_line(rng, kind + ":big", d, layout(rng, kind, n), rng.choice(["noisy", "zeros"]), cover, "strata:32768"))
+    # exact scale equivariance in the responses: y * 2^k gives coefficients * 2^k bit for bit
+    for j in range(30 * m):
+        d = rng.randint(0, 5)
+        kind = rng.choice(["uniform", "cheb", "grid"])
+        x = layout(rng, kind, d + 1 + rng.randint(0, 25))
+        c0 = [rng.normal() for _ in range(d + 1)]
+        y = [horner_f(c0, v) + 0.1 * rng.normal() for v in x]
+        k = rng.choice([-500, -200, -40, 40, 200, 500])
+        L.append("fit scaleA:%d:d%d %d %s %s" % (j, d, d, vec(x), vec(y)))
+        L.append("fit scaleB:%d:%d:d%d %d %s %s" % (j, k, d, d, vec(x), vec([v * 2.0 ** k for v in y])))
+        cover["strata:scale"] = cover.get("strata:scale", 0) + 1
+    # predict: special coefficient / abscissa values
+    for _ in range(30 * m):
+        kk = rng.randint(1, 8)
+        c = [rng.choice(SPECIAL_X + [3.0, 1e300, 1e-300, 5e-324]) for _ in range(kk)]
+        xs = [rng.choice(SPECIAL_X) for _ in range(rng.randint(1, 8))]
+        L.append("predict special2:k%d %s %s" % (kk, vec(c), vec(xs)))
+    return L
+
+
 def gen(rng, tier):
     cover = {}
     lines = []
@@ -295,6 +394,7 @@ def gen(rng, tier):
         n = rng.randint(0, 9)
         kind = rng.choice(["uniform", "grid", "int"])
         lines.append("vander %s:n%d %d %s" % (kind, n, n, vec(layout(rng, kind, rng.randint(0, 10)))))
+    lines += gen_strata(rng, tier, cover)
     rng.shuffle(lines)
     return lines, cover
 
@@ -439,6 +539,7 @@ def oracle(lines, impl):
     from .common import Rng
     fails = []
     worst = 0.0
+    SCALES = {}
     for i, (l, rep) in enumerate(zip(lines, impl)):
         t = l.split()
         op, tag = t[0], t[1]
@@ -458,7 +559,7 @@ def oracle(lines, impl):
                 if st != "panic":
                     fails.append(Failure(i, key, "fit on %d abscissae and %d responses returned a value instead of panicking" % (len(x), len(y))))
                 continue
-            if not (finite(x) and finite(y)) or len(set(x)) < d + 1 or max(abs(v) for v in y) > 1e100:
+            if not (finite(x) and finite(y)) or len(set(x)) < d + 1 or max(abs(v) for v in y) > 1e100 or 0 < max(abs(v) for v in y) < 1e-250:
                 continue   # outside the property's guard: correspondence only
             fc = FitCheck(d, x, y)
             if fc.Ginv is None or C_TOL * EPS * fc.cond >= SKIP_AT:
@@ -478,6 +579,8 @@ def oracle(lines, impl):
             for _ in range(6):
                 sc = cm * 10.0 ** (-r.randint(0, 14))
                 perts.append([sc * r.normal() if r.chance(0.7) else 0.0 for _ in range(d + 1)])
+            if tag.startswith("scale"):
+                SCALES.setdefault(tag.split(":")[1], {})[tag[5]] = (i, tag, coef)
             errs, w = fc.check(coef, perts)
             worst = max(worst, w)
             for what, msg in errs:
@@ -557,6 +660,18 @@ def oracle(lines, impl):
                 else:
                     continue
                 break
+    for sid, ab in SCALES.items():
+        if "A" not in ab or "B" not in ab:
+            continue
+        (ia, taga, ca), (ib, tagb, cb) = ab["A"], ab["B"]
+        k = int(tagb.split(":")[2])
+        for a, b in zip(ca, cb):
+            want = a * 2.0 ** k
+            if abs(want) == float("inf") or (want != 0 and abs(want) < 1e-290):
+                continue
+            if f2h(want) != f2h(b) and not (want == 0 and b == 0):
+                fails.append(Failure(ib, "fit:scale", "responses * 2^%d: coefficient %r became %r, expected %r (exact power-of-two scaling)" % (k, a, b, want), want))
+                break
     LAST_WORST["ratio"] = max(LAST_WORST["ratio"], worst)
     import os
     if os.environ.get("CV_CALIBRATE"):
@@ -569,3 +684,9 @@ REQUIRED_THEOREMS = REQUIRED_THEOREMS + ['Cv.C01Solve.poly_fit_normal_equations_
 _np = list(NOT_PROVED)
 _np = [('exactness of invert_matrix is no longer a hypothesis: Props/C01SolveApps proves the normal equations / minimality / totality of `fit` unconditionally for a non-singular normal matrix (exact arithmetic, via the proved LU/Cholesky solver correctness)' if 'invert_matrix' in str(x) else x) for x in _np]
 NOT_PROVED = [x for x in _np if x is not None]
+
+# --- source tie, loops (tools/rs2lean.py loops=True: accumulation loops and iterator chains regenerated from /repo/src into
+# Generated/SrcC14Loops.lean and proved equal to the hand model in Props/SrcTieC14Loops.lean)
+from . import srctie
+srctie.wire_loops(globals(), 'C14')
+PROOF_MODULES = PROOF_MODULES + ['Compute.Lemmas.SrcLoops']
